@@ -84,16 +84,28 @@ theorem C05_nested_parent (pc : ParentChildField) (k : Kind) :
       (if k == .ownedIntoExisting then pc.attrs.find? (·.appl.get .ownedInto) else none) <|>
       (if k == .refIntoExisting then pc.attrs.find? (·.appl.get .refInto) else none)) := rfl
 
-/-- C05-4 (the validator's view): for infallible conversions, when no ghost applies, the validator's
-    `applicable_field_attr` selects the same instruction as the expander's `applicable_attr`.
-    Partial: for fallible conversions the validator never consults the fallible level (it always asks with
-    `fallible = false`), see KNOWN_FINDINGS C15-validator-view. -/
-theorem C05_three_views_agree_partial (a : MemberAttrs) (k : Kind) (ty : TypePath) (hg : a.ghost ty k = none) :
-    (a.applicableFieldAttr k false ty).map (fun x => ApplicableAttr.field x.attr) = a.applicableAttr k false ty := by
+/-- C05-4 (the validator's view, since fix 6dc1e19): for every conversion — fallible or not — when no ghost applies,
+    the validator's `applicable_field_attr` selects the same instruction as the expander's `applicable_attr`: the three
+    copies of the lookup chain agree. (Before the fix the validator always asked with `fallible = false`; the statement
+    then held for infallible conversions only and was kept as `C05_three_views_agree_partial`.) -/
+private theorem orElse_map' {α β} (g : α → β) (x y : Option α) : (x <|> y).map g = (x.map g <|> y.map g) := by
+  cases x <;> simp
+
+private theorem none_orElse' {α} (x : Option α) : ((none : Option α) <|> x) = x := by cases x <;> rfl
+
+private theorem ite_map' {α β} (g : α → β) (c : Bool) (x : Option α) :
+    (if c then x else none).map g = (if c then x.map g else none) := by
+  cases c <;> simp
+
+theorem C05_three_views_agree (a : MemberAttrs) (k : Kind) (f : Bool) (ty : TypePath) (hg : a.ghost ty k = none) :
+    (a.applicableFieldAttr k f ty).map (fun x => ApplicableAttr.field x.attr) = a.applicableAttr k f ty := by
   unfold MemberAttrs.applicableFieldAttr MemberAttrs.applicableAttr MemberAttrs.fieldAttrCore
-  simp only [hg]
-  cases k <;>
-    simp [HOrElse.hOrElse, OrElse.orElse, Option.orElse] <;>
-    (repeat' split) <;> simp_all
+  simp only [hg, Option.map_none, none_orElse', orElse_map', ite_map', Option.map_map]
+  rfl
+
+/-- the instance the validator used to be limited to -/
+theorem C05_three_views_agree_partial (a : MemberAttrs) (k : Kind) (ty : TypePath) (hg : a.ghost ty k = none) :
+    (a.applicableFieldAttr k false ty).map (fun x => ApplicableAttr.field x.attr) = a.applicableAttr k false ty :=
+  C05_three_views_agree a k false ty hg
 
 end O2o
